@@ -29,11 +29,12 @@ RULE = (
     "mixed ones), issubclass / not issubclass (single class, the same 2- and 3-tuples), is/is not, ==/!=, in/not in, "
     "truthiness, not, len comparisons, TypeIs and TypeGuard helpers, match patterns (class/literal/sequence), and their "
     "and/or combinations; every function is executed on inhabitants(V). Shape = how the condition reaches the branch: "
-    "every (V, condition) is tested directly (`if c:`), and every 6th one additionally in one of 20 other shapes drawn per "
+    "every (V, condition) is tested directly (`if c:`), and every 6th one additionally in one of 25 other shapes drawn per "
     "seed: condition stored in a variable and tested later (`ok = c ... if ok:` / `if not ok:`), with the tested variable "
     "left alone, rebound from a second parameter y: V on SOME paths only (if-body, else-body, for-body, while-body, "
-    "try-body, except-body; taken or not according to a parameter r) or on all paths, walrus, early return, conditional "
-    "expression, while-test; these are executed on (x, y, r) over inhabitants(V)^2 x {False, True} and the object "
+    "try-body, except-body; taken or not according to a parameter r) or on all paths, stored and tested inside a loop "
+    "that starts afterwards (for over a display / range / unknown iterable, while True, while <opaque>), walrus, early "
+    "return, conditional expression, while-test; these are executed on (x, y, r) over inhabitants(V)^2 x {False, True} and the object "
     "that reaches a branch is judged against the type narrowed there. Non-trivial = narrowed type differs from V in some "
     "branch or a branch is Never; distinct by (constructor set of V, condition kind, shape)."
 )
@@ -128,8 +129,16 @@ REBINDS = {
     "except": ["try:", "    need(r)", "except ValueError:", "    x = y"],
     "all": ["x = y"],
 }
+# the stored condition is tested INSIDE a loop that starts after it was stored
+LOOPS = {
+    "stored-in-for-fixed": "for _i in [0, 1]:",      # the checker knows the loop body is entered
+    "stored-in-for-unknown": "for _i in times(True):",
+    "stored-in-for-range": "for _i in range(2):",
+    "stored-in-while-true": "while True:",
+    "stored-in-while-unknown": "while opq():",
+}
 SHAPES = [f"stored{'-not' if neg else ''}+rebind-{rb}" if rb != "none" else f"stored{'-not' if neg else ''}"
-          for rb in REBINDS for neg in (False, True)] + ["walrus", "early-return", "ifexp", "while-test"]
+          for rb in REBINDS for neg in (False, True)] + ["walrus", "early-return", "ifexp", "while-test"] + list(LOOPS)
 
 
 def shape_family(shape) -> str:
@@ -139,6 +148,8 @@ def shape_family(shape) -> str:
         return "stored+full-rebind"
     if "+rebind-" in shape:
         return "stored+partial-rebind"
+    if shape in LOOPS:
+        return "stored-in-loop"
     return "stored" if shape.startswith("stored") else shape
 
 
@@ -282,6 +293,11 @@ def render_func(name: str, v: Ty, c: Cond, style: int, shape=None) -> list:
     ann = ty.render(v, style)
     if shape is not None:
         pos, neg = "return __probe(1, x)", "return __probe(0, x)"
+        if shape in LOOPS:
+            # the branches do not leave the loop, so what they know about x flows around the back edge
+            leave = ["        if opq():", "            break"] if shape == "stored-in-while-true" else []
+            return [f"def {name}(x: {ann}):", f"    ok = {c.src}", "    " + LOOPS[shape], "        if ok:", "            __probe(1, x)",
+                    "        else:", "            __probe(0, x)"] + leave + ["    return None"]
         if shape.startswith("stored"):
             head, _, rb = shape.partition("+rebind-")
             mid = REBINDS[rb or "none"] or []
@@ -549,14 +565,28 @@ def condition_carried_by_each_union_member(okval) -> bool:
         return False
 
 
+STORED_CONDITION_KEY = "stored-condition|constraint-added-again-at-the-same-node-replaces-the-definitions-it-restricts-and-narrows-to-Never"
+
+
+def carries_constraint(okval) -> bool:
+    try:
+        from pyanalyze.stacked_scopes import NULL_CONSTRAINT, extract_constraints
+
+        return extract_constraints(okval) is not NULL_CONSTRAINT
+    except Exception:  # noqa: BLE001
+        return False
+
+
 def lost_key(c, tag, o, v: Ty, t: Ty, shape=None, okval=None) -> str:
-    if okval is not None and t.kind == "Never" and condition_carried_by_each_union_member(okval):
-        return "stored-condition|union-valued-condition-adds-its-constraint-twice-at-one-node-and-narrows-to-Never"
     prims = set(prim_kinds(c.kind).split("+"))
     if prims & TRUTHY_KINDS and nominally_always_true(o, v):
         return "truthiness|falsy-member-of-type-assumed-always-true"
     if in_intersection_of_unrelated_classes(o, v, c.tested):
         return "intersection|instance-of-two-unrelated-classes-is-narrowed-away"
+    # the stored condition's constraint is added more than once at the node that tests it: twice in one visit when
+    # the condition's value is a union whose members each carry it, once per visit of a loop body
+    if okval is not None and t.kind == "Never" and (condition_carried_by_each_union_member(okval) or shape in LOOPS and carries_constraint(okval)):
+        return STORED_CONDITION_KEY
     return f"lost|{shape_prefix(shape)}{prim_kinds(c.kind)}|{'pos' if tag else 'neg'}|{type(o).__name__}|narrowed:{tkind(t)}"
 
 
